@@ -1043,7 +1043,51 @@ func (g *G) genFuncDef(o *out, depth int) {
 	g.declare(&gvar{name: name, kind: KFn, ro: true, arity: arity, variadic: variadic})
 }
 
+// genCaptureInTry: a variable declared in a nested block of a try body is captured by a closure that
+// outlives the statement; the catch identifier (and later declarations) re-use that local slot.
+func (g *G) genCaptureInTry(o *out) {
+	g.tag("capture-in-try")
+	h := fmt.Sprintf("h%d", g.nextV)
+	cv := fmt.Sprintf("cv%d", g.nextV+1)
+	en := fmt.Sprintf("e%d", g.nextV+2)
+	g.nextV += 3
+	o.line(h + " := []")
+	g.declare(&gvar{name: h, kind: KErr, ro: true})
+	o.line("try {")
+	o.line("  if true {")
+	o.line("    " + cv + " := " + g.genInt(1))
+	o.line("    " + h + " = append(" + h + ", func() { " + cv + "++; return " + cv + " })")
+	o.line("  }")
+	switch g.pick(3) {
+	case 0:
+		o.line("  throw \"cap\"")
+	case 1:
+		o.line("  " + h + "[5]()")
+	default:
+		o.line(fmt.Sprintf("  L(%d)", g.lid()))
+	}
+	if g.chance(0.7) {
+		o.line("} catch " + en + " {")
+		o.line(fmt.Sprintf("  L(%d, isError(%s))", g.lid(), en))
+		if g.chance(0.5) {
+			o.line("} finally {")
+			o.line(fmt.Sprintf("  after%s := %s", en, g.intLit()))
+			o.line(fmt.Sprintf("  L(%d, after%s)", g.lid(), en))
+		}
+	} else {
+		o.line("} catch {")
+	}
+	o.line("}")
+	o.line("for hf in " + h + " {")
+	o.line(fmt.Sprintf("  L(%d, hf())", g.lid()))
+	o.line("}")
+}
+
 func (g *G) genTry(o *out, depth int) {
+	if g.chance(0.15) {
+		g.genCaptureInTry(o)
+		return
+	}
 	g.tag("try")
 	g.inTry++
 	defer func() { g.inTry-- }()
